@@ -108,7 +108,7 @@ def run(ctx):
     rng = ctx.rng
     for i in range(nrand):
         a = ["clients=%d" % rng.choice([1, 2, 2, 3]), "futs=%d" % rng.choice([1, 1, 2, 3]), "poolmax=%d" % rng.choice([1, 2, 2, 3]),
-             "poolcap=%d" % rng.choice([1, 1, 2, 4]), "mode=%d" % rng.choice([0, 1, 2, 3, 4, 4]), "abort=%d" % rng.choice([0, 0, 1, 2]),
+             "poolcap=%d" % rng.choice([1, 1, 2, 4]), "mode=%d" % rng.choice([0, 1, 2, 3, 4, 4, 6]), "abort=%d" % rng.choice([0, 0, 1, 2]),
              "sleep=%d" % rng.choice([0, 0, 0, 3000]), "workyield=%d" % rng.choice([0, 1]),
              "--seed", str(ctx.seed * 100003 + i), "--spur", rng.choice(["0", "0", "0.05"])]
         k = rng.random()
@@ -137,7 +137,7 @@ def run(ctx):
     c11.check_runs(ctx, fsig, runs, "fastsignal_pb")
     runs = []
     for cfg in (["clients=2", "futs=2", "poolmax=1", "poolcap=1", "mode=0"], ["clients=2", "futs=1", "poolmax=2", "poolcap=1", "mode=1"],
-                ["clients=1", "futs=3", "poolmax=2", "poolcap=2", "mode=4"]):
+                ["clients=1", "futs=3", "poolmax=2", "poolcap=2", "mode=4"], ["clients=2", "futs=2", "poolmax=2", "poolcap=2", "mode=6"]):
         base = cfg + ["workyield=0", "--seed", "1", "--spur", "0"]
         runs += vlib.preemption_bounded_schedules(binary, base, bound=1 if ctx.quick else 2, cap=500 if ctx.quick else 6000)
     ctx.notes["preemption_bounded_pool_schedules"] = len(runs)
